@@ -643,18 +643,27 @@ func foreignSync(coll string, seed uint64) http.Handler {
 		rr := rt.NewRand(seed)
 		var b strings.Builder
 		b.WriteString(xmlHdr + `<D:multistatus xmlns:D="DAV:">`)
-		n := 1 + rr.Intn(4)
+		n := 1 + rr.Intn(6)
+		tailFails := rr.Chance(0.3) // the failing members come last (after a limit's worth of good ones)
 		for i := 0; i < n; i++ {
 			p := fmt.Sprintf("%sc%d.vcf", coll, i)
-			if rr.Chance(0.3) {
+			if tailFails && i == n-1 && rr.Chance(0.5) {
+				fmt.Fprintf(&b, `<D:response><D:href>%s</D:href><D:status>HTTP/1.1 %s</D:status></D:response>`, p, rt.Pick(rr, []string{"403 Forbidden", "500 Internal Server Error", "423 Locked"}))
+				continue
+			}
+			if (!tailFails && rr.Chance(0.3)) || (tailFails && i == n-1) {
 				extra := rt.Pick(rr, []string{"", "", `<D:responsedescription>removed on the server</D:responsedescription>`, `<D:error><D:no-such-resource/></D:error><D:responsedescription>gone</D:responsedescription>`})
 				fmt.Fprintf(&b, `<D:response><D:href>%s</D:href><D:status>HTTP/1.1 404 Not Found</D:status>%s</D:response>`, p, extra)
 			} else {
 				fmt.Fprintf(&b, `<D:response><D:href>%s</D:href><D:propstat><D:prop><D:getetag>"sync-%d"</D:getetag><D:getlastmodified>Mon, 01 Jan 2024 00:00:0%d GMT</D:getlastmodified></D:prop><D:status>HTTP/1.1 200 OK</D:status></D:propstat></D:response>`, p, i, i)
 			}
 		}
-		if rr.Chance(0.5) {
+		switch rr.Intn(6) {
+		case 0, 1, 2:
 			fmt.Fprintf(&b, `<D:response><D:href>%s</D:href><D:propstat><D:prop><D:getetag>"coll"</D:getetag></D:prop><D:status>HTTP/1.1 200 OK</D:status></D:propstat></D:response>`, coll)
+		case 3:
+			// RFC 6578 section 3.6: the answer was truncated, said by a 507 on the collection itself
+			fmt.Fprintf(&b, `<D:response><D:href>%s</D:href><D:status>HTTP/1.1 507 Insufficient Storage</D:status><D:error><D:number-of-matches-within-limits/></D:error></D:response>`, coll)
 		}
 		b.WriteString(`<D:sync-token>http://example.org/sync/42</D:sync-token></D:multistatus>`)
 		w.Header().Set("Content-Type", `application/xml; charset="utf-8"`)
